@@ -549,6 +549,9 @@ func (ld *Layerdefs) Mount(name string) error {
 		if err != nil {
 			return err
 		}
+	}
+	// Mounting a derived layer can create directories in its ancestors
+	for _, layer := range ancestors {
 		err = ld.makeExportSymlinks(layer)
 		if err != nil {
 			return err
